@@ -1016,7 +1016,11 @@ class C20(PropCheck):
             return [('loglik_is_mvn', 'returned %r, normal log density at the recorded mean/cov %r' % (out['loglik'], want))]
         return []
 
-    def spec_val(self, case):
+    GAUSS_MODES = ('std', 'whiten', 'warton', 'whiten+warton', 'mis_mean', 'mis_var')
+
+    @staticmethod
+    def spec_gauss_args(case):
+        """(y, mean, covariance) of the normal density the published formula of a Gaussian-family likelihood evaluates"""
         X = np.array(case['X'], dtype=float)
         y = np.array(case['y'], dtype=float)
         mode = case['mode']
@@ -1027,15 +1031,40 @@ class C20(PropCheck):
             m, S = sample_mean_cov(X)
             if 'penalty' in case:
                 S = warton_cov(S, 1 - case['penalty'])
-            return mvn_logpdf(y, m, S)
-        if mode in ('go', 'go_far'):
-            return ghurye_olkin(X, y)
+            return y, m, S
         m, S = sample_mean_cov(X)
         sd = np.sqrt(np.diag(S))
         if mode == 'mis_mean':
-            return mvn_logpdf(y, m + sd * np.array(case['gamma']), S)
+            return y, m + sd * np.array(case['gamma'], dtype=float), S
         if mode == 'mis_var':
-            return mvn_logpdf(y, m, S + np.diag((sd * np.array(case['gamma'])) ** 2))
+            return y, m, S + np.diag((sd * np.array(case['gamma'], dtype=float)) ** 2)
+        raise ValueError(mode)
+
+    def spec_slack(self, case):
+        """absolute rounding allowance of a binary64 evaluation of the normal log density: the quadratic form
+        r' S^-1 r is only determined up to about cond(S) * eps * its size.  Negligible against the 1e-8 tolerance for
+        well-conditioned covariances; without it a nearly singular sample covariance (cond 1e7 and more, outside the
+        property's quantifier) raises a false alarm."""
+        if case['mode'] not in self.GAUSS_MODES:
+            return 0.0
+        try:
+            y, m, S = self.spec_gauss_args(case)
+            r = y - m
+            quad = abs(float(r @ np.linalg.solve(S, r)))
+            c = float(np.linalg.cond(S))
+        except Exception:
+            return 0.0
+        v = 4 * c * 2.2e-16 * (quad + len(y))
+        return v if math.isfinite(v) else 0.0
+
+    def spec_val(self, case):
+        X = np.array(case['X'], dtype=float)
+        y = np.array(case['y'], dtype=float)
+        mode = case['mode']
+        if mode in self.GAUSS_MODES:
+            return mvn_logpdf(*self.spec_gauss_args(case))
+        if mode in ('go', 'go_far'):
+            return ghurye_olkin(X, y)
         if mode == 'semi':
             return semi_parametric(X, y)
         if mode == 'semi_warton':
@@ -1051,7 +1080,7 @@ class C20(PropCheck):
             return [('likelihood_formula[%s]' % case['mode'],
                      '%s, n=%d, d=%d: raised %s, published formula gives %r' % (case['mode'], len(case['X']), len(case['y']),
                                                                                out['raised'], want))]
-        if not self._close(out['loglik'], want, 1e-8):
+        if not self._close(out['loglik'], want, 1e-8, self.spec_slack(case)):
             d = len(case['y'])
             return [('likelihood_formula[%s]' % case['mode'],
                      '%s, n=%d, d=%d: returned %r, published formula %r' % (case['mode'], len(case['X']), d, out['loglik'], want))]
@@ -1066,8 +1095,9 @@ class C20(PropCheck):
             if want is None:
                 self.bump('val:semi:ill-conditioned-or-singular-not-compared')
                 continue
+            want = float(want)
             got = out['vals'][k]
-            if got is None or not self._close(got, want, 1e-8):
+            if got is None or not self._close(got, want, 1e-8, self.spec_slack(sub)):
                 bad.append(('history_value[%s]' % mode,
                             '%s, d=%d: evaluation %d of %d on the same observed/gamma/whitening arrays %s, the published formula '
                             'for the values the caller put into these arrays gives %r'
@@ -1088,7 +1118,7 @@ class C20(PropCheck):
             """the slice sampler's current log-likelihood belongs to its current gamma and moments"""
             if g['loglik'] is None or g['sample_mean'] is None:
                 return True, None
-            want = mis_from_moments(y, g['sample_mean'], g['sample_cov'], g['gamma'], adj)
+            want = float(mis_from_moments(y, g['sample_mean'], g['sample_cov'], g['gamma'], adj))
             return self._close(g['loglik'], want, 1e-8), want
         for rec in out['rounds']:
             n = rec['n']
@@ -1100,8 +1130,9 @@ class C20(PropCheck):
             if l['gamma_in'] != g:
                 bad.append(('round_gamma_on_record', 'round %d: the likelihood was evaluated with gamma %r, the chain records gamma %r '
                             'for this round' % (n, l['gamma_in'], g)))
-            want = self.spec_val(dict(mode=mode, X=case['Xs'][rec['x']], y=case['y'], gamma=g))
-            if not self._close(l['val'], want, 1e-8):
+            sub = dict(mode=mode, X=case['Xs'][rec['x']], y=case['y'], gamma=g)
+            want = float(self.spec_val(sub))
+            if not self._close(l['val'], want, 1e-8, self.spec_slack(sub)):
                 bad.append(('round_likelihood_formula[%s]' % mode, 'round %d: synthetic log-likelihood %r, published formula at the gamma '
                             'on record %r gives %r' % (n, l['val'], g, want)))
             if rec['after']['gamma'] != g or rec['gamma_row_after'] != g:
